@@ -66,6 +66,15 @@ fn check_signers(v: &Envelope, keys: &[(SigningPrivateKey, SigningPublicKey)], s
             } else { ensure!(md.assertions().is_empty(), "metadata returned for a signature made without metadata", "key {}", i); }
         }
     }
+    // the explicit-signature forms: each plain signature object verifies exactly under its signer's key
+    op("is_verified_signature / verify_signature");
+    for obj in v.objects_for_predicate(known_values::SIGNED) {
+        if let Ok(sig) = obj.extract_subject::<bc_components::Signature>() {
+            let by: Vec<usize> = (0..3).filter(|i| v.is_verified_signature(&sig, pubs[*i])).collect();
+            ensure!(by.len() == 1 && signers[by[0]], "a signature object verifies under no key or under several / a non-signer's key", "{:?}", by);
+            ensure!(v.verify_signature(&sig, pubs[by[0]]).is_ok() && v.verify_signature(&sig, pubs[(by[0] + 1) % 3]).is_err(), "verify_signature disagrees with is_verified_signature", "");
+        }
+    }
     for mask in masks {
         let list: Vec<usize> = (0..3).filter(|i| mask >> i & 1 == 1).collect();
         let plist: Vec<&dyn Verifier> = list.iter().map(|i| pubs[*i]).collect();
@@ -78,6 +87,8 @@ fn check_signers(v: &Envelope, keys: &[(SigningPrivateKey, SigningPublicKey)], s
         }
         let r = must!(v.has_signatures_from(&plist), "has_signatures_from failed");
         ensure!(r == (good == list.len()), "has_signatures_from (all) wrong", "keys {:?} signers {:?}", list, signers);
+        ensure!(v.verify_signatures_from(&plist).is_ok() == (good == list.len()), "verify_signatures_from (all) wrong", "keys {:?} signers {:?}", list, signers);
+        ensure!(v.verify_signatures_from_threshold(&plist, None).is_ok() == (good == list.len()), "verify_signatures_from_threshold(None) wrong", "keys {:?}", list);
     }
     Ok(())
 }
